@@ -495,6 +495,8 @@ class SSHTransportBase(protocol.Protocol):
     # The current key exchange state.
     _keyExchangeState = _KEY_EXCHANGE_NONE
     _blockedByKeyExchange = None
+    # Our NEWKEYS for the key exchange in progress has been sent.
+    _newKeysSent = False
 
     # Added to key exchange algorithms by a client to indicate support for
     # extension negotiation.
@@ -620,7 +622,13 @@ class SSHTransportBase(protocol.Protocol):
         @type payload: L{str}
         """
         if self._keyExchangeState != self._KEY_EXCHANGE_NONE:
-            if not self._allowedKeyExchangeMessageType(messageType):
+            if not self._allowedKeyExchangeMessageType(messageType) or (
+                # Once our NEWKEYS is out, the peer expects everything else
+                # under the new keys (RFC 4253 section 7.3), which we only
+                # adopt when its NEWKEYS arrives: hold back until then.
+                self._newKeysSent
+                and messageType != MSG_DISCONNECT
+            ):
                 self._blockedByKeyExchange.append((messageType, payload))
                 return
 
@@ -1223,6 +1231,7 @@ class SSHTransportBase(protocol.Protocol):
             outs, ins = ins, outs
         self.nextEncryptions.setKeys(outs[0], outs[1], ins[0], ins[1], outs[2], ins[2])
         self.sendPacket(MSG_NEWKEYS, b"")
+        self._newKeysSent = True
 
     def _newKeys(self):
         """
@@ -1239,6 +1248,7 @@ class SSHTransportBase(protocol.Protocol):
             self.incomingCompression = zlib.decompressobj()
 
         self._keyExchangeState = self._KEY_EXCHANGE_NONE
+        self._newKeysSent = False
         messages = self._blockedByKeyExchange
         self._blockedByKeyExchange = None
         for messageType, payload in messages:
